@@ -1,6 +1,7 @@
 //! C17: caches stay within capacity, evict least-recently-used, never serve stale data.
-//! M+S cells: LruMap (4 presets), ConcurrentLruMap (Hash routing), LruPageCache (read/prefetch/invalidate histories).
-//! S-only cells: ConcurrentLruMap RoundRobin/ThreadAffinity routing, SingleLruPageCache, CachedBlobStore (3 write strategies, own and shared cache), FsaCache.
+//! M+S cells: LruMap (4 presets), ConcurrentLruMap (Hash / RoundRobin / ThreadAffinity routing), LruPageCache (read/prefetch/invalidate histories,
+//! external rewrites with separate invalidation, close_file), SingleLruPageCache, CachedBlobStore (3 write strategies, own and shared cache).
+//! S-only cells: FsaCache, the two-thread probe of one LruMap shard.
 use crate::util::*;
 use serde_json::{json, Value};
 use std::collections::HashMap;
@@ -986,7 +987,7 @@ pub fn run(args: &Args) {
     std::fs::create_dir_all(&tmp).expect("temp dir");
     let th = args.thorough;
     let mut cx = Ctx {
-        sum: Summary::new("C17", "LruMap / ConcurrentLruMap: every get/put/remove/contains/clear/len history of <= 4 (quick) or 5 (thorough) operations over 3 keys at capacity 1 and 2, plus generated histories of up to 120 operations over cap+1..cap+3 keys at capacities 1..4 (eviction on most puts), 4 config presets, shard counts 1,2,4,8, three routing strategies, a recording eviction callback; each result, the callback invocations of each step, len and final retrievability compared with a time-stamped reference and with the Coq model. Page cache: files of 0, 1, PAGE-1, PAGE, PAGE+1, 2*PAGE+100, 3*PAGE+17, 5*PAGE bytes, cache of 0..3 pages and large, reads at offsets/lengths at page boundaries, inside the short last page, straddling, beyond EOF, with prefetch, invalidate_page/range, overwrite+invalidate, read_batch, read_with_prefetch; bytes compared with the file and (digest) with the Coq model. CachedBlobStore: put/get/remove/flush/prefetch/enable/disable histories for 3 write strategies with own and shared cache, compared with the wrapped store. non-trivial = more puts than capacity / history of >= 3 operations"),
+        sum: Summary::new("C17", "LruMap / ConcurrentLruMap: every get/put/remove/contains/clear/len history of <= 4 (quick) or 5 (thorough) operations over 3 keys at capacity 1 and 2, plus generated histories of up to 120 operations over cap+1..cap+3 keys at capacities 1..4 (eviction on most puts), 4 config presets, shard counts 1,2,4,8, three routing strategies, a recording eviction callback; each result, the callback invocations of each step, len and final retrievability compared with a time-stamped reference and with the Coq model. Page cache: files of 0, 1, PAGE-1, PAGE, PAGE+1, 2*PAGE+100, 3*PAGE+17, 5*PAGE bytes, cache of 0..3 pages and large, reads at offsets/lengths at page boundaries, inside the short last page, straddling, beyond EOF, with prefetch, invalidate_page/range, overwrite+invalidate, read_batch, read_with_prefetch; bytes compared with the file and (digest) with the Coq model. Also: the file rewritten without telling the cache and invalidate_range as a later call (same, covering, partial, other range or none), close_file, SingleLruPageCache with a used buffer and size(). CachedBlobStore: put/get/remove/flush/prefetch/enable/disable histories for 3 write strategies with own and shared cache (blobs of 0..2*PAGE+5 bytes, a real file read / rewritten through the shared cache), compared with the wrapped store and with the Coq model over a MemoryBlobStore model. RoundRobin: one call per operation against the counter model; ThreadAffinity: 1-4 worker threads, observed shard per thread, per-shard reference LRU. non-trivial = more puts than capacity / history of >= 3 operations"),
         shards: CoqShards::new(HEADER, 75),
         budget_lru: if th { 6000 } else { 700 }, budget_cmap: if th { 2000 } else { 250 }, budget_pc: if th { 1500 } else { 220 },
         terms: vec![vec![]; 8], n_lru: 0, n_cmap: 0, n_pc: 0, tmp: tmp.clone(), fileno: 0,
